@@ -1,6 +1,7 @@
 #!/bin/sh
 # run every registered quick check with the given seed; print one summary line per check
 cd "$(dirname "$0")/.."
+mkdir -p out
 SEED=${1:-1}
 TIER=${2:-quick}
 for p in C01 C02 C03 C04 C05 C06 C07 C08 C09 C10 C11 C12 C13 C14 C15 C16 C17 C18 C19 C20; do
